@@ -23,6 +23,43 @@ TLA_CP = "/opt/veriftools/tla/tla2tools.jar:/opt/veriftools/tla/CommunityModules
 NCPU = os.cpu_count() or 4
 
 
+class _RC:
+    def __init__(self, rc):
+        self.returncode = rc
+
+
+class _PoolOfProcs:
+    """Run the given commands with at most `conc` alive at a time; outputs() yields (stdout, returncode) in command order."""
+
+    def __init__(self, cmds, cwd, conc):
+        self.cmds, self.cwd, self.conc = cmds, cwd, conc
+
+    def outputs(self, t_end, on_timeout):
+        import tempfile as _tf
+        files = [_tf.TemporaryFile(mode="w+") for _ in self.cmds]
+        running, nxt, done = {}, 0, {}
+        try:
+            while len(done) < len(self.cmds):
+                while nxt < len(self.cmds) and len(running) < self.conc:
+                    running[nxt] = subprocess.Popen(self.cmds[nxt], cwd=self.cwd, stdout=files[nxt], stderr=subprocess.STDOUT, text=True)
+                    nxt += 1
+                for i, p in list(running.items()):
+                    if p.poll() is not None:
+                        done[i] = p.returncode
+                        del running[i]
+                if time.time() > t_end:
+                    raise on_timeout()
+                if running:
+                    time.sleep(0.2)
+        finally:
+            for p in running.values():
+                p.kill()
+        for i in range(len(self.cmds)):
+            files[i].seek(0)
+            yield files[i].read(), done[i]
+            files[i].close()
+
+
 def default_workers():
     """TLC worker count: VERIF_TLC_WORKERS, else /verif/.work/tlc_workers (a local, uncommitted throttle used while many
     builders share the machine), else all cores (max 16)."""
@@ -180,24 +217,23 @@ class Ctx:
         Returns de-duplicated behaviours (lists of step records)."""
         d = self._spec_dir()
         seed = self.seed if seed is None else seed
-        procs = procs or min(8, default_workers())
+        # The number of seed streams is FIXED (8 unless the caller asks otherwise) so that the generated behaviours do not depend
+        # on the machine or on the local throttle; only the number of streams running at the same time is throttled.
+        procs = procs or 8
+        conc = max(1, min(procs, default_workers()))
         per = (num + procs - 1) // procs
-        ps = []
+        cmds = []
         for i in range(procs):
             md = tempfile.mkdtemp(prefix="md-", dir=self.work)
-            cmd = ["java", "-XX:+UseParallelGC", "-Xss256m", "-Xmx2g", "-cp", TLA_CP, "tlc2.TLC", "-workers", "1",
-                   "-metadir", md, "-config", os.path.join("cfg", cfg), "-deadlock", "-noGenerateSpecTE",
-                   "-simulate", "num=%d" % per, "-depth", str(depth), "-seed", str(seed * 7919 + i * 104729 + 17), module]
-            ps.append(subprocess.Popen(cmd, cwd=d, stdout=subprocess.PIPE, stderr=subprocess.STDOUT, text=True))
+            cmds.append(["java", "-XX:+UseParallelGC", "-Xss256m", "-Xmx2g", "-cp", TLA_CP, "tlc2.TLC", "-workers", "1",
+                         "-metadir", md, "-config", os.path.join("cfg", cfg), "-deadlock", "-noGenerateSpecTE",
+                         "-simulate", "num=%d" % per, "-depth", str(depth), "-seed", str(seed * 7919 + i * 104729 + 17), module])
+        ps = _PoolOfProcs(cmds, d, conc)
         out = []
         seen = set()
         t_end = time.time() + timeout
-        for p in ps:
-            try:
-                o, _ = p.communicate(timeout=max(1, t_end - time.time()))
-            except subprocess.TimeoutExpired:
-                p.kill()
-                raise Inconclusive("TLC simulate timeout on %s/%s" % (module, cfg))
+        for o, rc in ps.outputs(t_end, lambda: Inconclusive("TLC simulate timeout on %s/%s" % (module, cfg))):
+            p = _RC(rc)
             if "Error:" in o and "states generated" not in o.split("Error:")[-1] and p.returncode != 0:
                 raise Inconclusive("TLC simulate error on %s/%s:\n%s" % (module, cfg, o[-3000:]))
             for line in o.splitlines():
